@@ -34,8 +34,8 @@ man = {
     "version": 1,
     "setup_cmd": "./setup.sh",
     "hooks": {
-        "guard": "oxidd_verif",
-        "enable": "RUSTFLAGS='--cfg oxidd_verif' (set by the driver for harness crates that need hook access)",
+        "guard": "verif-hooks",
+        "enable": "cargo feature `verif-hooks` of linear-hashtbl, oxidd-reorder and oxidd-dump (off by default; enabled only by the path dependencies of the harness crates /verif/harness/{hashtbl,reorder,dddmp}/Cargo.toml)",
         "baseline_off_cmd": "cd /repo && cargo nextest run --workspace --no-fail-fast --test-threads 8 --offline || cargo test --workspace --no-fail-fast --offline",
         "source_commits": registry.HOOK_COMMITS,
         "add_only": True,
